@@ -21,7 +21,7 @@ pub fn property() -> Property {
         assumptions: &["ASCII only (the reader maps bytes to chars one by one); tag values without double quotes; comments without '}'"],
         parts: vec![Part {
             name: "databases",
-            quick: 6_000,
+            quick: 12_000,
             thorough: 300_000,
             single_shard: false, supplementary: false,
             run: |cfg| run_part(cfg, db_strategy(), |r| build_db(r), check_db),
